@@ -49,6 +49,7 @@ def h_resolve_dynamic_tags(ctx):
     sp = Spec()
     exc_table(sp)
     evaluator_models(sp, only_expression_error)
+    sp.models['expr_parser.evaluate_transaction'] = eval_txn_model()       # raises at most ExpressionError: harness evaluate_transaction
     sp.models['str'] = Func(lambda I, a, k, n: I.ctx.fresh('str', StrS))
     I = Interp(ctx, sp)
     fi = find_function(MU + '_resolve_dynamic_tags')
